@@ -53,6 +53,7 @@ class PathCtx:
         self.trace = []            # branch labels taken (for reporting)
         self.frozen = {}           # id(container) -> description (parameter-owned mutable containers)
         self.dirty_roots = set()
+        self.sanctioned = set()
         self.oblig_prefix = ""
         self.writes = []           # (description, owner roots)
         self.inputs = {}           # name -> symbolic input description (for replay)
